@@ -1,39 +1,69 @@
 import KyupyVerif.Proofs.Transform
 import KyupyVerif.Proofs.TransformElim
 import KyupyVerif.Proofs.TransformStable
+import KyupyVerif.Proofs.TransformSem6
+import KyupyVerif.Proofs.Substitute4
+import KyupyVerif.Proofs.SubstituteRes
 /-! # C10 — copy, pickle, fork elimination and cell substitution preserve function
 
-Object of the theorems: the hand-written model `KV.Transform` (Model/Transform.lean) of `Circuit.copy`,
-`__getstate__/__setstate__` and `eliminate_1to1_forks` (circuit.py) on the level of the canonical netlist dump
-(`Net` = nodes with kind and pin lists, lines, io list — the object every other check of this framework starts
-from — plus the node names).  All theorems quantify over ALL dumps satisfying the decidable predicate `NNet.wf`
-(every line is referenced from the two pin entries it records, every pin entry is such a line, no trailing `None`
-in a pin list, names unique per class, ports are nodes), over ALL fork visiting orders and both guard behaviours
-(`skip`: a fork without driver raises — current tree — or is passed over — patch 06).
+Objects of the theorems: the hand-written models `KV.Transform` of `Circuit.copy`, `__getstate__/__setstate__`,
+`eliminate_1to1_forks` (Model/Transform.lean) and `Circuit.substitute` with `Line.remove` and
+`remove_dangling_nodes(…, only=…)` (Model/Substitute.lean) on the level of the canonical netlist dump (`Net` = nodes with
+kind and pin lists, lines, io list — the object every other check of this framework starts from — plus the node names).
+All theorems quantify over ALL dumps satisfying the decidable predicate `NNet.wf` (every line is referenced from the two
+pin entries it records, every pin entry is such a line, no trailing `None` in a pin list, names unique per class, ports
+are nodes), the fork-elimination theorems over ALL fork visiting orders and both guard behaviours (`skip`: a fork without
+driver raises, or is passed over — patch 06, the current tree).
 
 * **Theorem** (kernel-checked, this file):
-  `copy_dump_eq`, `pickle_dump_eq` — the rebuilt circuit has the SAME dump, hence (`copy_pickle_same_function`) the
-  same `s_nodes` names and order, the same gate-by-gate function (`evalLine`, `evalCaptures`) and the same anything
-  else that is computed from the dump (`SimOps` program, levels, memory map).
-  `elim_ports` — `eliminate_1to1_forks` keeps the port list with names and order;
-  `elim_state_perm` — it keeps the flip-flops and the latches (kind and name) **up to order**; the full statement
-  "names AND ORDER of the state elements are kept" is FALSE for the current tree: `elim_state_order_false`
-  (swap-with-last deletion moves the last node into the hole; a flip-flop moved in front of another one swaps
-  their `s_nodes` positions) — the harness confirms this on the real code (class `elim-state-order`).
-  `elim_stable_snames`, `elim_stable_classes` — for the REPAIRED code (`elimForksStableIn` = the same loop followed by
-  `_restore_node_order`, patch 03; the harness probes which behaviour the code under test shows) the full statement
-  holds: `[n.name for n in c.s_nodes]` is unchanged, names and order, and so is every class of non-fork nodes.
-  `elim_sem_partial` — the local fact behind the splice: in every consistent labelling of the lines (the
-  gate-by-gate meaning of a netlist, C01) the out-line of a non-port fork carries the value of its in-line, which
-  `elimOne` puts in its place.
+  - `copy_dump_eq`, `pickle_dump_eq` — the rebuilt circuit has the SAME dump, hence (`copy_pickle_same_function`) the
+    same `s_nodes` names and order, the same gate-by-gate function (`evalLine`, `evalCaptures`) and the same anything
+    else that is computed from the dump (`SimOps` program, levels, memory map).
+  - `elim_ports` — `eliminate_1to1_forks` keeps the port list with names and order;
+    `elim_state_perm` — it keeps the flip-flops and the latches (kind and name) **up to order**; the full statement
+    "names AND ORDER of the state elements are kept" is FALSE for the current tree: `elim_state_order_false`
+    (swap-with-last deletion moves the last node into the hole; a flip-flop moved in front of another one swaps
+    their `s_nodes` positions) — the harness confirms this on the real code (class `elim-state-order`).
+    `elim_stable_snames`, `elim_stable_classes` — for the REPAIRED code (`elimForksStableIn` = the same loop followed by
+    `_restore_node_order`, patch 03; the harness probes which behaviour the code under test shows) the full statement
+    holds: `[n.name for n in c.s_nodes]` is unchanged, names and order, and so is every class of non-fork nodes.
+  - `elim_sem` — the FULL semantic statement for `eliminate_1to1_forks` (`elimForksIn`, the current tree's loop): the model
+    returns with the result the index maps `Ren` (`elimForksInM`; `elim_maps_same_circuit`: same circuit as `elimForksIn`);
+    every consistent labelling of the lines (the gate-by-gate meaning of a netlist, Model/Net.lean / C01) under every
+    assignment, restricted and renamed along the maps, is a consistent labelling of the result under the assignment
+    permuted like `s_nodes`; every surviving node reads the same value at every pin; the node map is injective, keeps
+    kind, name, port list and `s_node` status and reaches every non-fork node.  `elim_sem_captures` — the same by `s_nodes`
+    position (captured value, name, kind at position `p'` = those at position `sigma … p'` before).  `elim_one_sem` — the
+    one-step (splice) lemma.  Extra hypothesis `NNet.forkIns1` (a fork has at most one input pin; without it a fork
+    reading its own output on a second pin would be spliced onto a removed node).  No uniqueness of the labelling is
+    needed; `evalCaptures_eq_capturesOf` connects `capturesOf` with the evaluator of the copy/pickle theorem.
+    `elim_sem_partial` — the earlier local fact (the out-line of a non-port fork carries the value of its in-line).
+  - `substitute_ports` — `substitute` keeps the port list, names and order (all cases, incl. removal of dangling logic);
+    `substitute_state_perm` — the state elements of the result up to order, in all cases: those of the host with the
+    cell re-classified by the designated cell's kind (or dropped when there is none) plus the added implementation nodes;
+    `substitute_regular` — regular use (`regularB`: designated cell, no connected-but-ignored input, all outputs
+    connected): the node table is the host's with the cell's kind replaced, followed by the added nodes — exactly;
+    `substitute_snames` — the documented case in which names AND order of `s_nodes` are kept (regular use, designated
+    cell of the same flip-flop/latch class as the cell, no further state element in the implementation);
+    `substitute_wiring` — the pin-by-pin wiring lemma (host line at instance pin `k` is connected to what port `k` of the
+    implementation was connected to, through `node_map`) and the frame (all other host nodes and line ends untouched);
+    `substitute_sem_partial` — every host line not driven by the cell keeps its equation literally.  The full semantic
+    statement `substitute_sem` is written out as a comment above `substitute_sem_partial`; NOT proved: that the copied
+    implementation computes the cell's function at the instance's output lines.
+  - `resolve_ports` — `resolve_tlib_cells` (model `resolveCells`) keeps the port list, names and order, for every library.
 * **Correspondence** (harness/c10.py, differential, not proof): model dumps after copy / pickle round trip /
   `eliminate_1to1_forks` = dumps of the real objects on random circuits (both port styles, permuted node order,
-  dictionary order of the forks different from the index order, forks without driver); `NNet.wf` is evaluated on
-  every real dump (certificate that the hypothesis of the theorems holds there).
-* **Oracle only** (harness/c10.py): `substitute`, `resolve_tlib_cells`, `remove_dangling_nodes` are not modelled;
-  the full semantic statement for fork elimination (the restricted labelling is consistent for the result, with
-  lines and nodes renamed) is not proved.  Both are decided on the real code by simulation before/after
-  (random compositions, every library cell × pin subsets, synthetic libraries). -/
+  dictionary order of the forks different from the index order, forks without driver); the index maps of `elimForksInM` =
+  the identity of the real `Node` / `Line` objects before/after; `NNet.wf` and `NNet.forkIns1` are evaluated on every real
+  dump (certificate that the hypotheses of the theorems hold there).  `substitute` (driver command `subst`) = the real
+  `substitute()` on random hosts × random implementation circuits incl. cells of the built-in libraries (multi-output,
+  outputs read internally, inputs with 0/1/many readers, no output, empty, state elements; unconnected and surplus
+  instance pins), comparing canonical dumps with names; where the real code raises the model answers `none`; the
+  model's `regularB` = the harness's own reading of "regular use".  `resolve_tlib_cells` (driver command `resolve`) = the
+  real method on random circuits instantiating cells of the five built-in libraries and of synthetic libraries.
+* **Oracle only** (harness/c10.py): the semantic statements for `substitute` (`substitute_sem`) and `resolve_tlib_cells`
+  (Boolean function at ports and state elements unchanged) are not proved; they are decided on the real code by
+  simulation before/after (random compositions, every library cell × pin subsets, synthetic libraries). -/
 namespace KV.C10
 open KV KV.Transform
 variable {skip : Bool}
@@ -112,9 +142,73 @@ theorem elim_stable_classes (nn nn' : NNet) (order : List String) (h : nn.wf = t
 example : (elimForksStable exOrder).map (fun n => (n.sNames, n.net.nodes.size, n.wf)) =
     some (["a", "o", "o2", "A", "B"], 5, true) := by decide +kernel
 
-/- FULL STATEMENT (`elim_sem`, not proved; decided by the oracle): for `elimOne skip nn i = some nn'` and every labelling
-   `v` consistent for `nn`, the labelling `v'` of the remaining lines (`v' l' = v (if l' = b then last else l')`)
-   is consistent for `nn'` under the assignment permuted like `s_nodes`. -/
+/-- `elimForksInM` is `elimForksIn` annotated with the index maps (`Ren`): it computes the same circuit -/
+theorem elim_maps_same_circuit (nn : NNet) (order : List String) :
+    (elimForksInM skip order nn).map (·.1) = elimForksIn skip order nn :=
+  elimForksInM_fst order (nn, Ren.id)
+
+/-- **`eliminate_1to1_forks` preserves the function** (full semantic statement).  For every well-formed dump whose forks
+    have one input, every visiting order, the result `nn'` and the index maps `r` the model returns (`r.line l'` /
+    `r.node j'` = the index the line / node object at `l'` / `j'` had before; swap-with-last deletion renumbers):
+    every consistent labelling `v` of the lines of `nn` (each line carries what its driver computes, Model/Net.lean) under
+    any assignment `asg`, restricted and renamed along `r`, is a consistent labelling of `nn'` under the assignment
+    permuted like the `s_nodes`; every surviving node reads the same value at every input pin (in particular what is
+    captured at ports and state elements); `r.node` is an injection of the nodes of `nn'` into those of `nn` that keeps
+    kind, name, the port list (in order) and the `s_node` status and reaches every node that is not a fork. -/
+theorem elim_sem {α : Type _} [BEq α] [LawfulBEq α] (nn nn' : NNet) (r : Ren) (order : List String)
+    (h : nn.wf = true) (hf : nn.forkIns1 = true) (he : elimForksInM skip order nn = some (nn', r))
+    (z : α) (neg : α → α) (prim : String → α → α → α → α → α) (asg : Nat → α) (v : Array α)
+    (hc : consistentB nn.net z neg prim asg v = true) :
+    elimForksIn skip order nn = some nn' ∧
+    consistentB nn'.net z neg prim (reassign r nn nn' asg) (relabel r nn' v z) = true ∧
+    (∀ j' k, j' < nn'.net.nodes.size → pinRead nn'.net (relabel r nn' v z) z j' k = pinRead nn.net v z (r.node j') k) ∧
+    nn'.net.io.map r.node = nn.net.io ∧
+    (∀ j', j' < nn'.net.nodes.size → r.node j' < nn.net.nodes.size ∧
+      (nn'.net.node j').kind = (nn.net.node (r.node j')).kind ∧ nn'.names.getD j' "" = nn.names.getD (r.node j') "" ∧
+      (j' ∈ nn'.net.sNodes ↔ r.node j' ∈ nn.net.sNodes)) ∧
+    (∀ j1 j2, j1 < nn'.net.nodes.size → j2 < nn'.net.nodes.size → r.node j1 = r.node j2 → j1 = j2) ∧
+    (∀ j, j < nn.net.nodes.size → (nn.net.node j).isFork = false → ∃ j', j' < nn'.net.nodes.size ∧ r.node j' = j) := by
+  have si := SI.of_wf (WF.of_wf h) hf
+  obtain ⟨s, sem⟩ := elimForksInM_sim z neg prim order nn nn' r si he
+  have hb := sim_consistentB si s z neg prim sem asg v hc
+  have h1 : elimForksIn skip order nn = some nn' := by
+    rw [← elim_maps_same_circuit, he]; rfl
+  exact ⟨h1, hb.1, hb.2, s.io, fun j' hj => ⟨s.nodeLt j' hj, s.kind j' hj, s.name j' hj, s.mem j' hj⟩, s.inj, s.surj⟩
+
+/-- the same in `s_nodes` positions: position `p'` of the result shows the capture, the name and the kind of position
+    `sigma r nn nn' p'` of the original (`capturesOf` = what `evalCapturesG` returns for the labelling) -/
+theorem elim_sem_captures {α : Type _} [BEq α] [LawfulBEq α] (nn nn' : NNet) (r : Ren) (order : List String)
+    (h : nn.wf = true) (hf : nn.forkIns1 = true) (he : elimForksInM skip order nn = some (nn', r))
+    (z : α) (neg : α → α) (prim : String → α → α → α → α → α) (asg : Nat → α) (v : Array α)
+    (hc : consistentB nn.net z neg prim asg v = true) (p' : Nat) (hp' : p' < nn'.net.sNodes.length) :
+    sigma r nn nn' p' < nn.net.sNodes.length ∧
+    (capturesOf nn'.net (relabel r nn' v z) z)[p']? = (capturesOf nn.net v z)[sigma r nn nn' p']? ∧
+    nn'.sNames[p']? = nn.sNames[sigma r nn nn' p']? ∧
+    (nn'.net.node (nn'.net.sNodes.getD p' 0)).kind = (nn.net.node (nn.net.sNodes.getD (sigma r nn nn' p') 0)).kind := by
+  have si := SI.of_wf (WF.of_wf h) hf
+  obtain ⟨s, sem⟩ := elimForksInM_sim z neg prim order nn nn' r si he
+  exact sim_captures s v _ z (sim_consistentB si s z neg prim sem asg v hc).2 p' hp'
+
+/-- one loop iteration (the splice): the fork's in-line takes the place of the out-line at the reader pin, the fork and
+    the out-line are deleted with swap-with-last; `r = stepRen nn i b` -/
+theorem elim_one_sem {α : Type _} [BEq α] [LawfulBEq α] (nn nn' : NNet) (r : Ren) (i : Nat)
+    (h : nn.wf = true) (hf : nn.forkIns1 = true) (hi : i < nn.net.nodes.size) (hfk : (nn.net.node i).isFork = true)
+    (he : elimOneM skip nn i = some (nn', r))
+    (z : α) (neg : α → α) (prim : String → α → α → α → α → α) (asg : Nat → α) (v : Array α)
+    (hc : consistentB nn.net z neg prim asg v = true) :
+    elimOne skip nn i = some nn' ∧
+    consistentB nn'.net z neg prim (reassign r nn nn' asg) (relabel r nn' v z) = true ∧
+    (∀ j' k, j' < nn'.net.nodes.size → pinRead nn'.net (relabel r nn' v z) z j' k = pinRead nn.net v z (r.node j') k) := by
+  have si := SI.of_wf (WF.of_wf h) hf
+  obtain ⟨s, sem⟩ := elimOneM_sim z neg prim nn nn' r i si hi hfk he
+  have hb := sim_consistentB si s z neg prim sem asg v hc
+  have h1 : elimOne skip nn i = some nn' := by rw [← elimOneM_fst, he]; rfl
+  exact ⟨h1, hb.1, hb.2⟩
+
+/-- what `evalCapturesG` returns is `capturesOf` of the evaluator's labelling -/
+theorem evalCaptures_eq_capturesOf {α : Type _} (net : Net) (z : α) (neg : α → α) (prim : String → α → α → α → α → α)
+    (a : Nat → α) : evalCapturesG net z neg prim a = capturesOf net (evalAll net z neg prim a) z := rfl
+
 /-- local semantic fact: the line `b` that `elimOne` deletes carries, in every consistent labelling, the value of the
     line `a` that is connected to `b`'s reader pin instead -/
 theorem elim_sem_partial {α} [BEq α] [LawfulBEq α] (nn : NNet) (h : nn.wf = true)
@@ -124,6 +218,161 @@ theorem elim_sem_partial {α} [BEq α] [LawfulBEq α] (nn : NNet) (h : nn.wf = t
     (hin : (nn.net.node i).ins.head? = some (some a)) (hout : (nn.net.node i).outs.head? = some (some b)) :
     v.getD b z = v.getD a z :=
   fork_passes nn (WF.of_wf h) z neg prim asg v hc i a b hi hf hio hin hout
+
+/-! ## `Circuit.substitute` (model: Model/Substitute.lean, tied to circuit.py by exact dump correspondence) -/
+
+/-- `substitute(node, impl)` keeps the port list: names and order (the cell itself must not be a port) -/
+theorem substitute_ports (h m h' : NNet) (c : Nat) (hw : h.wf = true) (hc : c < h.net.nodes.size)
+    (hio : h.net.io.contains c = false) (he : substitute h c m = some h') :
+    h'.ioNames = h.ioNames ∧ h'.net.io.length = h.net.io.length := by
+  have w := WF.of_wf hw
+  obtain ⟨_, _, _, _, _, _, r, _⟩ := substitute_obs h c m h' ⟨w.names, w.io⟩ hc hio he
+  exact ⟨r, by simpa [NNet.ioNames] using congrArg List.length r⟩
+
+/-- state elements of the result, up to order, in every case (also when an empty implementation or an unconnected output
+    makes `substitute` remove nodes): they are the state elements of the host — the cell `c` counted with the kind of the
+    designated cell (the first flip-flop/latch of the implementation if there is one) under its own name, or dropped when
+    there is no designated cell — plus the further nodes of the implementation, named `<instance>~<internal name>`
+    (`addedKN`); `p` = any selection of (kind, name) pairs that only accepts flip-flop/latch kinds -/
+theorem substitute_state_perm (h m h' : NNet) (c : Nat) (sh : Shape) (hw : h.wf = true) (hc : c < h.net.nodes.size)
+    (hio : h.net.io.contains c = false) (hs : implShape m = some sh) (he : substitute h c m = some h')
+    (p : String × String → Bool) (hp : ∀ k n, p (k, n) = true → isSeqKind k = true) :
+    (h'.kindNames.filter p).Perm (((match sh.des with
+        | some dn => h.kindNames.set c ((m.net.node dn).kind, h.names.getD c "")
+        | none => h.kindNames.eraseIdx c) ++ addedKN m (h.names.getD c "") sh.des).filter p) := by
+  have w := WF.of_wf hw
+  have li : LI h := ⟨w.names, w.io⟩
+  obtain ⟨sh', h5, map, dang, hs', _, _, _, _, _, hk, _, hperm⟩ := substitute_obs h c m h' li hc hio he
+  have : sh' = sh := Option.some.inj (hs'.symm.trans hs)
+  subst this
+  refine (hperm p hp).trans ?_
+  rw [hk]
+  cases hd : sh'.des with
+  | some dn => rw [(phase1_some_obs h c m dn li hc).1]
+  | none => exact ((phase1_none_obs h c m li hc hio).1.append_right _).filter p
+
+/-- regular use (`regularB`: a designated cell exists, no connected input pin is ignored by the implementation, every
+    output of the implementation is connected): nothing is removed; the nodes of the host keep index, kind and name,
+    except that the cell takes the kind of the designated cell, and the other nodes of the implementation follow -/
+theorem substitute_regular (h m h' : NNet) (c : Nat) (hw : h.wf = true) (hc : c < h.net.nodes.size)
+    (hio : h.net.io.contains c = false) (hr : regularB h c m = true) (he : substitute h c m = some h') :
+    ∃ sh dn, implShape m = some sh ∧ sh.des = some dn ∧ h'.net.io = h.net.io ∧
+      h'.kindNames = h.kindNames.set c ((m.net.node dn).kind, h.names.getD c "") ++ addedKN m (h.names.getD c "") (some dn) := by
+  have w := WF.of_wf hw
+  have li : LI h := ⟨w.names, w.io⟩
+  obtain ⟨sh, dn, map, hs, hd, hcore, _⟩ := substitute_regular_eq h c m h' hr he
+  have p1 := phase1_some_obs h c m dn li hc
+  rw [← hd] at p1
+  have o := substituteCore_obs h c m sh hs h' map [] hcore p1.2.2.1 p1.2.2.2
+  obtain ⟨h2, net4, ren, net5, _, _, hfold, hci, hco, e⟩ := substituteCore_inv h c m sh hs h' map [] hcore
+  have hio' : h'.net.io = h.net.io := by
+    have f := foldlM_addImplNode_obs m _ sh.des _ _ _ hfold p1.2.2.1 p1.2.2.2
+    have p3 := pinsOnly_phase3 m map h2
+    have p4 := pinsOnly_connectIns m map _ _ _ hci
+    have p5 := pinsOnly_connectOuts m map _ _ _ hco
+    subst e
+    rw [(p3.trans (p4.trans p5)).2, f.2.2.2.1, hd]; rfl
+  exact ⟨sh, dn, hs, hd, hio', by rw [o.1, p1.1, hd]⟩
+
+/-- the documented case in which `substitute` keeps `[n.name for n in c.s_nodes]`, names AND order: regular use, the
+    designated cell is of the same class as the cell it replaces (flip-flop / latch / neither, as `s_nodes` reads the
+    kind) and the implementation holds no other flip-flop or latch -/
+theorem substitute_snames (h m h' : NNet) (c : Nat) (hw : h.wf = true) (hc : c < h.net.nodes.size)
+    (hio : h.net.io.contains c = false) (hr : regularB h c m = true) (he : substitute h c m = some h')
+    (hclass : ∀ sh dn, implShape m = some sh → sh.des = some dn →
+      hasSub "dff" (m.net.node dn).kind.toLower = hasSub "dff" (h.net.node c).kind.toLower ∧
+      hasSub "latch" (m.net.node dn).kind.toLower = hasSub "latch" (h.net.node c).kind.toLower ∧
+      ∀ j, j < m.net.nodes.size → j ≠ dn → isSeqKind (m.net.node j).kind = false) :
+    h'.sNames = h.sNames ∧ h'.ioNames = h.ioNames := by
+  obtain ⟨sh, dn, hs, hd, hio', hk⟩ := substitute_regular h m h' c hw hc hio hr he
+  obtain ⟨c1, c2, c3⟩ := hclass sh dn hs hd
+  have hports := (substitute_ports h m h' c hw hc hio he).1
+  have hadd := addedKN_noSeq m (h.names.getD c "") dn c3
+  refine ⟨?_, hports⟩
+  rw [sNames_eq, sNames_eq, hports]
+  have e1 : h'.dffNames = h.dffNames := by
+    simp only [NNet.dffNames, hk]
+    exact regular_names h c hc _ _ (fun k => hasSub "dff" k.toLower) c1
+      (fun kn hkn => by have := hadd kn hkn; simp only [isSeqKind, Bool.or_eq_false_iff] at this; exact this.1)
+  have e2 : h'.latchNames = h.latchNames := by
+    simp only [NNet.latchNames, hk]
+    exact regular_names h c hc _ _ (fun k => hasSub "latch" k.toLower) c2
+      (fun kn hkn => by have := hadd kn hkn; simp only [isSeqKind, Bool.or_eq_false_iff] at this; exact this.2)
+  rw [e1, e2]
+
+/-- **pin-by-pin wiring** (regular use).  `map` = `node_map` of the real code (implementation node ↦ host node; every
+    entry is the cell itself or a node added behind the host's nodes).  The host line at input pin `k` of the instance is
+    connected to what input port `k` of the implementation was connected to (`inTarget`: the reader pin of the port's only
+    line, or pin 0 of the fork created for a port with several readers); the host line at output pin `k` is driven from
+    what drove output `k` of the implementation (`outTarget`: the driver pin of the port's line, or the next output of
+    the fork created for an output that is also read internally).  Frame: all other nodes of the host keep their record,
+    all other lines keep driver side / reader side. -/
+theorem substitute_wiring (h m h' : NNet) (c : Nat) (hw : h.wf = true) (hc : c < h.net.nodes.size)
+    (hr : regularB h c m = true) (he : substitute h c m = some h') :
+    ∃ sh map, implShape m = some sh ∧
+      (∀ k x, map.getD k none = some x → x = c ∨ h.net.nodes.size ≤ x) ∧
+      (∀ k ll, (h.net.node c).ins.getD k none = some ll → ∃ inn r rp, sh.inPorts[k]? = some inn ∧
+        inTarget m map inn = some (r, rp) ∧ (h'.net.line ll).reader = r ∧ (h'.net.line ll).rpin = rp) ∧
+      (∀ k ll, (h.net.node c).outs.getD k none = some ll → ∃ il d dp, sh.outLines[k]? = some il ∧
+        outTarget m map il = some (d, dp) ∧ (h'.net.line ll).driver = d ∧ (h'.net.line ll).dpin = dp) ∧
+      (∀ d, d < h.net.nodes.size → d ≠ c → h'.net.node d = h.net.node d) ∧
+      (∀ l, l < h.net.lines.size → (h.net.line l).driver ≠ c →
+        (h'.net.line l).driver = (h.net.line l).driver ∧ (h'.net.line l).dpin = (h.net.line l).dpin) ∧
+      (∀ l, l < h.net.lines.size → (h.net.line l).reader ≠ c →
+        (h'.net.line l).reader = (h.net.line l).reader ∧ (h'.net.line l).rpin = (h.net.line l).rpin) := by
+  have w := WF.of_wf hw
+  obtain ⟨sh, dn, map, hs, hd, hcore, hni⟩ := substitute_regular_eq h c m h' hr he
+  obtain ⟨fr, hm, win, wout⟩ := substituteCore_wire h c m sh hs w hc dn hd hni h' map [] hcore
+  refine ⟨sh, map, hs, hm, win, wout, fr.node, ?_, ?_⟩
+  · intro l hl hne
+    apply fr.drv l hl
+    intro hmem
+    obtain ⟨k, hk⟩ := (mem_filterMap_id _ l).mp hmem
+    exact hne (w.fwdOut c hc k l hk).2.1
+  · intro l hl hne
+    apply fr.rdr l hl
+    intro hmem
+    obtain ⟨k, hk⟩ := (mem_filterMap_id _ l).mp hmem
+    exact hne (w.fwdIn c hc k l hk).2.1
+
+/- FULL STATEMENT (`substitute_sem`, not proved; decided by the oracle of harness/c10.py by simulation before/after):
+   let `F : (inputs : List α) → (outputs : List α)` be the function the implementation `m` computes at its output ports
+   from its input ports (its unique consistent labelling, C01) — more generally, with state elements, `F` also takes the
+   assignment of the implementation's flip-flops/latches and also returns their captured values.  For every host `h`,
+   cell `c`, `substitute h c m = some h'` and every labelling `v` of the lines of `h` that is consistent at every line not
+   driven by `c` and carries `F (values at the in-lines of c)` at the out-lines of `c` (the cell interpreted as the
+   implementation's function; unconnected input pins read `z`), there is a labelling `v'` of `h'` — `v` on the host's
+   surviving lines renamed by the deletions, the implementation's internal values on the copied lines — that is
+   consistent for `h'` (`consistentB`), with `capturesOf h' v'` = `capturesOf h v` at the ports and state elements of
+   `h` (position-wise along `s_nodes`, which `substitute_snames` shows to be unchanged in the documented case), the
+   designated state element capturing what `F` returns for it.
+   PROVED below: the part of this statement that concerns the host outside the cell. -/
+/-- every line of the host that is not driven by the substituted cell keeps its equation literally: for every labelling
+    and every assignment, `lineEq` of the result at that line equals `lineEq` of the host (same driver, same pin, same
+    driver record, hence same gate function of the same in-lines) -/
+theorem substitute_sem_partial {α : Type _} (h m h' : NNet) (c : Nat) (hw : h.wf = true) (hc : c < h.net.nodes.size)
+    (hr : regularB h c m = true) (he : substitute h c m = some h')
+    (sp : Nat → Option Nat) (z : α) (neg : α → α) (prim : String → α → α → α → α → α) (a : Nat → α) (v : Nat → α)
+    (l : Nat) (hl : l < h.net.lines.size) (hd : (h.net.line l).driver ≠ c) :
+    lineEq h'.net sp z neg prim a v l = lineEq h.net sp z neg prim a v l := by
+  obtain ⟨_, _, _, _, _, _, hnode, hdrv, _⟩ := substitute_wiring h m h' c hw hc hr he
+  have hb := (WF.of_wf hw).back l hl
+  exact lineEq_frame h.net h'.net sp z neg prim a v l (hdrv l hl hd).1 (hdrv l hl hd).2 (hnode _ hb.1 hd)
+
+/-- `resolve_tlib_cells(tlib)` (model `resolveCells`: `substitute` for every node of the snapshot whose kind is in the
+    library): the port list keeps names and order, for every library, provided no port node is itself a library cell -/
+theorem resolve_ports (lib : Lib) (h h' : NNet) (hw : h.wf = true)
+    (hp : (h.net.io.all fun i => (lib.find (h.net.node i).kind).isNone) = true) (he : resolveCells lib h = some h') :
+    h'.ioNames = h.ioNames ∧ h'.net.io.length = h.net.io.length := by
+  have w := WF.of_wf hw
+  have hk : ∀ k ∈ ioKinds h, lib.find k = none := by
+    intro k hk
+    obtain ⟨i, hi, e⟩ := List.mem_map.mp hk
+    have := List.all_eq_true.mp hp i hi
+    rw [← e]
+    simpa [kindAt, Net.node] using this
+  have r := (resolve_fold lib h.keys h h' he ⟨w.names, w.io⟩ hk).1
+  exact ⟨r, by simpa [NNet.ioNames] using congrArg List.length r⟩
 
 /-! ## non-vacuity -/
 /-- a well-formed dump with an unconnected pin, a two-output flip-flop, fan-out and both node classes sharing a name -/
@@ -151,5 +400,89 @@ example : let nn : NNet := { net := { nodes := #[⟨"AND2", [none], []⟩], line
 example : consistentB exWf.net false (!·) prim2 (fun j => j == 0) (evalAll exWf.net false (!·) prim2 (fun j => j == 0)) = true ∧
     (exWf.net.node 4).isFork = true ∧ exWf.net.io.contains 4 = false ∧
     (exWf.net.node 4).ins.head? = some (some 3) ∧ (exWf.net.node 4).outs.head? = some (some 6) := by decide +kernel
+/-- hypotheses of `elim_sem` / `elim_sem_captures` / `elim_one_sem`: `exWf` is well-formed with one-input forks, the loop
+    removes fork 4 (the last node, `q`, moves into its slot and the last line into the slot of line 6: non-trivial maps),
+    and the evaluator's labelling is consistent; the conclusion evaluated on it -/
+example : exWf.wf = true ∧ exWf.forkIns1 = true ∧
+    (elimForksInM false exWf.forkNames exWf).map (fun p => ((List.range p.1.net.nodes.size).map p.2.node,
+      (List.range p.1.net.lines.size).map p.2.line)) = some ([0, 1, 2, 3, 6, 5], [0, 1, 2, 3, 4, 5]) ∧
+    (elimOneM false exWf 4).map (fun p => (p.1.net.nodes.size, p.1.net.lines.size)) = some (6, 6) ∧
+    (exWf.net.node 4).isFork = true ∧
+    consistentB exWf.net false (!·) prim2 (fun j => j == 0) (evalAll exWf.net false (!·) prim2 (fun j => j == 0)) = true ∧
+    ((elimForksInM false exWf.forkNames exWf).map fun p =>
+      consistentB p.1.net false (!·) prim2 (reassign p.2 exWf p.1 (fun j => j == 0))
+        (relabel p.2 p.1 (evalAll exWf.net false (!·) prim2 (fun j => j == 0)) false)) = some true := by decide +kernel
+
+/-- on `exOrder` the line map is not the identity either: line 1 is deleted, the last line (4) takes its index; node 1 is
+    deleted, the last node (5, flip-flop `B`) takes its index — `sigma` exchanges the positions of `A` and `B` -/
+example : exOrder.wf = true ∧ exOrder.forkIns1 = true ∧
+    (elimForksInM false exOrder.forkNames exOrder).map (fun p => ((List.range p.1.net.nodes.size).map p.2.node,
+      (List.range p.1.net.lines.size).map p.2.line, (List.range p.1.net.sNodes.length).map (sigma p.2 exOrder p.1))) =
+      some ([0, 5, 2, 3, 4], [0, 4, 2, 3], [0, 1, 2, 4, 3]) ∧
+    consistentB exOrder.net false (!·) prim2 (fun j => j == 0 || j == 4)
+      (evalAll exOrder.net false (!·) prim2 (fun j => j == 0 || j == 4)) = true := by decide +kernel
+
+/-! ### `substitute` -/
+/-- an implementation (as `TechLib` builds it: bench text, 1:1 forks eliminated) with two outputs, an input with two
+    readers (`A`), an input with one reader (`B`) and an output that is also read internally (`X`):
+    `input(A,B) output(X,Y) T=NAND2(A,B) X=INV1(T) Y=OR2(A,X)` -/
+def exImpl : NNet :=
+  { net := { nodes := #[⟨"__fork__", [], [some 1, some 6]⟩, ⟨"__fork__", [], [some 2]⟩, ⟨"__fork__", [some 3], [some 4]⟩,
+                        ⟨"__fork__", [some 5], []⟩, ⟨"NAND2", [some 1, some 2], [some 0]⟩, ⟨"OR2", [some 6, some 4], [some 5]⟩,
+                        ⟨"INV1", [some 0], [some 3]⟩],
+             lines := #[⟨4, 0, 6, 0⟩, ⟨0, 0, 4, 0⟩, ⟨1, 0, 4, 1⟩, ⟨6, 0, 2, 0⟩, ⟨2, 0, 5, 1⟩, ⟨5, 0, 3, 0⟩, ⟨0, 1, 5, 0⟩],
+             io := [0, 1, 2, 3] },
+    names := #["A", "B", "X", "Y", "T", "Y", "X"] }
+/-- a host with the instance `u` (node 2) between two inputs, an output and a flip-flop -/
+def exHost : NNet :=
+  { net := { nodes := #[⟨"input", [], [some 0]⟩, ⟨"input", [], [some 2]⟩, ⟨"AOCELL", [some 1, some 2], [some 3, some 4]⟩,
+                        ⟨"output", [some 3], []⟩, ⟨"DFF", [some 4, some 6], [some 5]⟩, ⟨"output", [some 5], []⟩,
+                        ⟨"__fork__", [some 0], [some 1, some 6]⟩],
+             lines := #[⟨0, 0, 6, 0⟩, ⟨6, 0, 2, 0⟩, ⟨1, 0, 2, 1⟩, ⟨2, 0, 3, 0⟩, ⟨2, 1, 4, 0⟩, ⟨4, 0, 5, 0⟩, ⟨6, 1, 4, 1⟩],
+             io := [0, 1, 3, 5] },
+    names := #["a", "b", "u", "z", "ff", "q", "a"] }
+
+/-- hypotheses of `substitute_ports` / `_state_perm` / `_regular` / `_snames` / `_wiring` / `_sem_partial` are satisfiable:
+    the designated cell is `X=INV1` (node 6 of the implementation); the result is the dump the real code produces
+    (harness/c10.py compares such dumps on random inputs) -/
+example : exHost.wf = true ∧ exHost.net.io.contains 2 = false ∧ regularB exHost 2 exImpl = true ∧
+    (implShape exImpl).map (fun sh => (sh.inPorts, sh.outLines, sh.des)) = some ([0, 1], [3, 5], some 6) ∧
+    -- the class condition of `substitute_snames`
+    hasSub "dff" (exImpl.net.node 6).kind.toLower = hasSub "dff" (exHost.net.node 2).kind.toLower ∧
+    hasSub "latch" (exImpl.net.node 6).kind.toLower = hasSub "latch" (exHost.net.node 2).kind.toLower ∧
+    ((List.range exImpl.net.nodes.size).all fun j => j == 6 || !isSeqKind (exImpl.net.node j).kind) = true := by decide +kernel
+example : (substitute exHost 2 exImpl).map (fun r => (r.kindNames.drop 7, r.sNames)) =
+    some ([("__fork__", "u~A"), ("__fork__", "u~X"), ("NAND2", "u~T"), ("OR2", "u~Y")], ["a", "b", "z", "q", "ff"]) := by
+  decide +kernel
+example : (substitute exHost 2 exImpl).map (fun r => (r.net.lines.toList.drop 7, (r.net.node 2).kind, (r.net.node 2).ins, (r.net.node 2).outs)) =
+    some ([⟨9, 0, 2, 0⟩, ⟨7, 0, 9, 0⟩, ⟨2, 0, 8, 0⟩, ⟨8, 0, 10, 1⟩, ⟨7, 1, 10, 0⟩], "INV1", [some 7], [some 9]) := by
+  decide +kernel
+example : (substitute exHost 2 exImpl).map (fun r => (r.net.line 1, r.net.line 2, r.net.line 3, r.net.line 4)) =
+    some (⟨6, 0, 7, 0⟩, ⟨1, 0, 9, 1⟩, ⟨8, 1, 3, 0⟩, ⟨10, 0, 4, 0⟩) := by decide +kernel
+
+/-- the removing cases are modelled too (they are covered by `substitute_ports` and `substitute_state_perm`): with output
+    pin 1 of the instance unconnected the `OR2` of `exImpl` dangles and is removed; with an implementation that ignores
+    its input and has no node of its own the cell and its in-line are removed, and the last node takes the cell's index -/
+def exHostU : NNet :=
+  { net := { nodes := #[⟨"input", [], [some 0]⟩, ⟨"input", [], [some 2]⟩, ⟨"AOCELL", [some 1, some 2], [some 3]⟩,
+                        ⟨"output", [some 3], []⟩, ⟨"DFF", [none, some 5], [some 4]⟩, ⟨"output", [some 4], []⟩,
+                        ⟨"__fork__", [some 0], [some 1, some 5]⟩],
+             lines := #[⟨0, 0, 6, 0⟩, ⟨6, 0, 2, 0⟩, ⟨1, 0, 2, 1⟩, ⟨2, 0, 3, 0⟩, ⟨4, 0, 5, 0⟩, ⟨6, 1, 4, 1⟩],
+             io := [0, 1, 3, 5] },
+    names := #["a", "b", "u", "z", "ff", "q", "a"] }
+def exFill : NNet :=
+  { net := { nodes := #[⟨"input", [], [some 0]⟩, ⟨"FILL", [some 0], []⟩, ⟨"DFF", [], []⟩], lines := #[⟨0, 0, 1, 0⟩], io := [0] },
+    names := #["a", "u", "ff"] }
+example : exHostU.wf = true ∧ exHostU.net.io.contains 2 = false ∧ regularB exHostU 2 exImpl = false ∧
+    (substitute exHostU 2 exImpl).map (fun r => (r.net.nodes.size, r.kindNames.drop 7, r.sNames)) =
+      some (10, [("__fork__", "u~A"), ("__fork__", "u~X"), ("NAND2", "u~T")], ["a", "b", "z", "q", "ff"]) := by decide +kernel
+example : exFill.wf = true ∧
+    (substitute exFill 1 { net := { nodes := #[⟨"__fork__", [], []⟩], lines := #[], io := [0] }, names := #["A"] }).map
+      (fun r => (r.kindNames, r.net.lines.size)) = some ([("input", "a"), ("DFF", "ff")], 0) := by decide +kernel
+
+/-- hypotheses of `resolve_ports`: the host of the example with the library `AOCELL ↦ exImpl` -/
+example : exHost.wf = true ∧ (exHost.net.io.all fun i => (Lib.find [("AOCELL", exImpl)] (exHost.net.node i).kind).isNone) = true ∧
+    (resolveCells [("AOCELL", exImpl)] exHost).map (fun r => (r.net.nodes.size, r.ioNames)) = some (11, ["a", "b", "z", "q"]) := by
+  decide +kernel
 
 end KV.C10
